@@ -177,6 +177,27 @@ Section C03.
     - destruct (f_recv f); [apply tl_incl in H|]; split; assumption.
   Qed.
 
+  (* the same without the exclusion of positional-only parameters (C04 excludes only calls that use such a NAME as a keyword) *)
+  Definition sig_base (f : fn) : bool :=
+    one_star (f_params f) && distinct (map p_name (full_params f))
+    && forallb (fun p => negb (Nat.eqb (p_name p) self_name)) (declared f)
+    && match f_bound f with Some _ => f_recv f | None => true end.
+
+  Lemma sig_ok_base : forall f, sig_ok f = true -> sig_base f = true /\ no_posonly (f_params f) = true.
+  Proof.
+    intros f H. unfold sig_ok in H. repeat (apply andb_true_iff in H; destruct H as [H ?]).
+    split; [|assumption]. unfold sig_base. now rewrite H3, H2, H1, H0.
+  Qed.
+
+  Lemma declared_incl_base : forall f p, sig_base f = true -> In p (declared f) -> In p (f_params f) /\ In p (full_params f).
+  Proof.
+    intros f p Hs H. unfold sig_base in Hs. repeat (apply andb_true_iff in Hs; destruct Hs as [Hs ?]).
+    unfold declared, full_params, func_params in *.
+    destruct (f_bound f) as [[n o]|].
+    - subst. rewrite H0 in H. simpl in H. split; [assumption|now right].
+    - destruct (f_recv f); [apply tl_incl in H|]; split; assumption.
+  Qed.
+
   Lemma find_param_spec : forall n ps p, find_param n ps = Some p -> In p ps /\ p_name p = n.
   Proof.
     induction ps as [|q ps IH]; simpl; intros p H; [discriminate|].
